@@ -24,7 +24,7 @@ def main():
     checks = []
     for pid in ALL:
         c = CHECKS.get(pid)
-        if not c or not os.path.exists(os.path.join(V, "pylib", "props", pid.lower() + ".py")):
+        if not c or pid in WITHHELD or not os.path.exists(os.path.join(V, "pylib", "props", pid.lower() + ".py")):
             continue
         checks.append({
             "property_id": pid,
@@ -59,6 +59,8 @@ def main():
     print("claimed", sorted(claimed), "not_applicable", len(na))
 
 NOT_YET = {}
+WITHHELD = {"C08": "check built (pylib/props/c08.py); its reports on the unchanged tree are being triaged (fix or known finding) before it is claimed"}
+NOT_YET.update(WITHHELD)
 ENGINES = [
  {"name": "pico_mon", "path": "harness/pico_mon", "serves_properties": ["C01", "C02", "C03", "C04"],
   "kind_free_text": "Rust binary linking the real pico: history generator, executor, event log at pico's client boundary, online/offline monitors; runs natively, under Miri, ASan, valgrind"},
@@ -121,6 +123,27 @@ ENGINES += [
  {"name": EG, "path": "harness/gql_tools", "serves_properties": ["C29","C30"], "kind_free_text": "Rust tool dumping relay graphql-syntax and graphql_schema_parser trees as canonical JSON for comparison with pylib/gqlref.py"},
  {"name": EF, "path": "harness/iso_tools", "serves_properties": ["C18","C19","C20"], "kind_free_text": "Rust tools over the compiler's public API + hooks H4/H5: fsops (artifact write plan/apply with fault plan), watchsim (incremental vs fresh state)"},
 ]
+
+CHECKS.update({
+ "C08": dict(engine=E3, level="exploration", technique="runtime monitoring: the real isograph_cli run as a child process per case (signal, exit status, panic text, child CPU time) on generated, mutated and hostile projects",
+   text="Held on N compiles (generated valid projects, single/multi-fault mutants, ~30 hostile shapes, raw mutations of checked-in and generated projects): no signal, no panic, bounded CPU, exit 0 or a diagnostic; listed known findings excepted.",
+   note="Trusted: panic detection by stderr text/exit 101; a config naming files that do not exist is treated as not well-formed.", ref="3/C08"),
+ "C14": dict(engine=E3, level="exploration", technique="runtime monitoring: repeated compiles in fresh processes over copies created in different orders and over layout-permuted copies; byte comparison of artifact trees and of normalised diagnostics",
+   text="Held on N comparisons over valid and invalid projects: identical artifact bytes and diagnostics across fresh processes and file creation orders; identical artifacts (modulo user-module import paths) and diagnostic message sets across layouts.",
+   note="Trusted: normalisation of timing text and of import specifiers leaving the artifact directory.", ref="3/C14"),
+ "C15": dict(engine=E3, level="exploration", technique="runtime monitoring: metamorphic testing - meaning-preserving rearrangements of generated programs compiled by the real CLI, entrypoint query_text.ts and normalization_ast.ts compared byte for byte",
+   text="Held on N metamorphic pairs (permute, duplicate under alias, extract client field, inline client field; composed up to 3).",
+   note="Trusted: the transformations in pylib/isomut.py preserve the set of (field, arguments) paths.", ref="3/C15"),
+ "C16": dict(engine=E3, level="exploration", technique="runtime monitoring: generated well-typed programs and single-fault mutants compiled by the real CLI; oracle = exit status + diagnostic presence per fault kind and position",
+   text="Held on N programs and M single-fault mutants over 19 fault kinds at top-level/nested/refinement/client-argument positions: valid accepted, invalid rejected; one listed known finding (undefined argument named id).",
+   note="Trusted: the generator's type discipline and the mutators' single-fault construction.", ref="3/C16"),
+ "C17": dict(engine=E3, level="exploration", technique="runtime monitoring: snapshot (path, bytes, mtime ns, inode) of the artifact directory before/after failing compiles by the real CLI over varied initial directory states",
+   text="Held on N failing compiles (validation faults, literal/schema syntax errors, missing schema/type, duplicate declarations) over previous-compile/stale/foreign/empty/absent directories: no file created, modified or deleted.",
+   note="Watch-mode clause observed by the C20 engine.", ref="3/C17"),
+ "C26": dict(engine=E3, level="exploration", technique="runtime monitoring: persisted and non-persisted builds of the same project by the real CLI, artifacts evaluated by node; ids re-hashed with hashlib, documents compared as GraphQL ASTs, file entries vs referenced ids",
+   text="Held on N projects x option combinations (md5/sha256/default, extra info, custom file): ids are hashes of recorded documents, documents equal the non-persisted operations, file records exactly the referenced operations.",
+   note="Trusted: python hashlib; pylib/gqlref.py for document equality.", ref="3/C26"),
+})
 
 import subprocess
 HOOK_COMMITS = [l.split()[0] for l in subprocess.run(["git", "-C", "/repo", "log", "--format=%h %s"], capture_output=True, text=True).stdout.splitlines() if "verif hook" in l]
